@@ -24,7 +24,9 @@ try:
 finally:
     subprocess.run(["git", "apply", patch], cwd=wt, check=True)
 out["checks"] = {}
-env = dict(os.environ, VERIF_REPO=wt)
+import tempfile
+scratch = tempfile.mkdtemp(prefix="verif_mut_")
+env = dict(os.environ, VERIF_REPO=wt, VERIF_REPLAY_DIR=os.path.join(scratch, "replays"), VERIF_EVIDENCE_DIR=os.path.join(scratch, "evidence"))
 for pid in checks:
     t = time.time()
     p = subprocess.run(["/venv/bin/python", os.path.join(HERE, "check.py"), pid, "--tier", os.environ.get("VERIF_TIER", "quick")] + (["--seed", os.environ["VERIF_SEED"]] if os.environ.get("VERIF_SEED") else []),
@@ -32,4 +34,6 @@ for pid in checks:
     sigs = [l.strip() for l in p.stdout.splitlines() if l.startswith("  signature=")]
     out["checks"][pid] = {"rc": p.returncode, "wall": round(time.time() - t, 1), "signatures": [s[:260] for s in sigs][:6],
                           "harness": [l[:200] for l in p.stdout.splitlines() if l.startswith("HARNESS")][:3]}
+import shutil
+shutil.rmtree(scratch, ignore_errors=True)
 print(json.dumps(out, indent=1))
